@@ -72,6 +72,15 @@ def run_impl(case, outcome):
         for el in els:
             el._definition.attach_event_handler(events.Write, observer)
             el._definition.attach_event_handler(events.Change, observer)
+    # vetoing Write handlers (a driver refusing a client's request): a refused write must leave the whole property as it was
+    if case.get("veto"):
+        from indi.device import events as _ev
+
+        def refuse(ev):
+            ev.prevent_default = True
+
+        for i in case["veto"]:
+            els[i]._definition.attach_event_handler(_ev.Write, refuse)
 
     qs = []
     steps = []
@@ -122,13 +131,26 @@ def run_impl(case, outcome):
         hsnaps = [h for h in seen if h != before] if rule != "AnyOfMany" else []
         outcome.count("handler-observations", len(seen))
         allsn = osnaps + hsnaps
+        veto = set(case.get("veto") or [])
+        named = set(i for i, _v in op[1]) if op[0] == "W" else set()
+        if veto and named and named <= veto:
+            # every named switch refuses the write: nothing may change, nothing may be published
+            qs.append(Query("spec swrefused %s %d %s %s" % (bits(before), len(allsn), " ".join(bits(s) for s in allsn), bits(after)),
+                            oracle_expect, "oracle", "a write refused by the driver's Write handler changed the property or published an update"))
+            outcome.nontrivial.add((rule, bits(before), enc_op(op), "refused"))
+            before = after
+            continue
+        if veto and named & veto:
+            before = after
+            continue            # partly refused: the accepted part is judged by the unrefused cases
         qs.append(Query("spec sw %s %s %s %d %s %s" % (rule, bits(before), enc_op(op), len(allsn),
                                                       " ".join(bits(s) for s in allsn), bits(after)),
                         oracle_expect, "oracle", "a published snapshot, a state seen by an event handler, or the final state breaks the rule"))
         outcome.nontrivial.add((rule, bits(before), enc_op(op)))
         before = after
     line = "%s %s %d %s" % (rule, bits(init), len(case["ops"]), " ".join(enc_op(o) for o in case["ops"]))
-    qs.insert(0, Query("sw run " + line, " | ".join(steps), "corr"))
+    if not case.get("veto"):
+        qs.insert(0, Query("sw run " + line, " | ".join(steps), "corr"))
     return qs
 
 
@@ -185,3 +207,16 @@ def gen_cases(rng, tier):
             else:
                 ops.append(["S", rng.sample(range(n), rng.randint(0, min(n, 2)))])
         yield {"op": "sw", "rule": rule, "init": init, "ops": ops}
+    # (3) refused writes: a vetoing Write handler on some switches; client writes (single and multiple) to refused and
+    # accepted switches from every configuration that satisfies the rule
+    for rule in RULES:
+        for n in (2, 3):
+            for init in itertools.product((False, True), repeat=n):
+                for veto in ([0], [n - 1], list(range(n))):
+                    ops = []
+                    for i in range(n):
+                        for v in (True, False):
+                            ops.append(["W", [[i, v]]])
+                    ops.append(["W", [[0, True], [n - 1, True]]])
+                    for op in ops:
+                        yield {"op": "sw", "rule": rule, "init": list(init), "ops": [op], "veto": veto}
